@@ -87,7 +87,7 @@ def translator_failure_is_foreign(prop, out):
     failing = [m.group(1) for m in (re.search(r"TRANSLATOR-ERROR: ((?:abasic-[\w-]+)/[\w/.-]+\.(?:rs|ts))", l) for l in lines) if m]
     # every pass of the translator (tables, random.rs, arrays.rs, program_lines.rs) reports its own failure: all of them must name a file
     if not failing or len(failing) != len(lines) or not all(os.path.exists(os.path.join(core.COQ, "Gen", g))
-                                                           for g in ("Tables.v", "RandomRs.v", "ArraysRs.v", "ProgramLinesRs.v")):
+                                                           for g in ("Tables.v", "RandomRs.v", "ArraysRs.v", "ProgramLinesRs.v", "ProgramEvents.v")):
         return False
     try:
         with open(os.path.join(core.ROOT, "properties.jsonl")) as f:
